@@ -187,6 +187,10 @@ func (cb *CellBuffer) UnlockCell(x, y int) {
 		return
 	}
 	c := &cb.cells[(y*cb.w)+x]
+	if !c.lock {
+		// nothing was held back for a cell that is not locked
+		return
+	}
 	c.lock = false
 	cb.SetDirty(x, y, true)
 }
